@@ -25,7 +25,12 @@ def run(tier):
     nft, nout = (3000, 40) if tier == 'quick' else (60000, 600)
     with mp.get_context('fork').Pool(16) as pool:
         fts = pool.map(ctldrv.ft_cases, [(sd * 53 + k, nft // 16) for k in range(16)])
-        outs = pool.map(ctldrv.out_cases, [(sd * 59 + k, nout, wd) for k in range(16)])
+        # all 1792 opcode slots as straight-line images of 14 (quick) / 7 (thorough: two passes) instructions
+        per = 14 if tier == 'quick' else 7
+        groups = [list(range(g, min(g + per, 1792))) for g in range(0, 1792, per)]
+        if tier != 'quick':
+            groups += [list(range(g, 1792, 256)) for g in range(256)]
+        outs = pool.map(ctldrv.out_cases, [(sd * 59 + k, nout, wd, groups[k::16]) for k in range(16)])
     ft = [c for p in fts for c in p]
     out = [c for p in outs for c in p]
     log('C14: %d find-terminal calls, %d sna2ctl runs' % (len(ft), len(out)))
@@ -37,7 +42,8 @@ def run(tier):
     with_sub = sum(1 for c in out if c['subs'])
     rep.extra['runs_with_code_map'] = with_map
     rep.extra['runs_with_sub_block_directives'] = with_sub
-    if with_map < len(out) // 4 or with_sub == 0:
+    rep.extra['opcode_slot_sweep_images'] = sum(1 for c in out if c['image_kind'] == 'sweep')
+    if with_map < (len(out) - rep.extra['opcode_slot_sweep_images']) // 4 or with_sub == 0:
         raise MachineryError('vacuous C14 run: %d runs with code map, %d with sub-blocks' % (with_map, with_sub))
     for c in ft:
         rep.count(('ft', tuple(c['len']), tuple(c['isend']), str(c['pre']), c['from'], c['limit'], c['ctl']))
@@ -65,7 +71,8 @@ def run(tier):
                              c.get('warning', '') or c['err'] or c['skoolerr']), c)
     rep.rule = ('ft: random abstract images (instruction lengths 1-3, END flags) x directive maps x (from, limit, ctl) through the '
                 'real _find_terminal_instruction vs CtlGen!FindTerminal; out: image classes x ranges (incl. ending mid-instruction) '
-                'x code maps in 5 formats from real simulator traces or arbitrary address sets x options -h/-l/-C/-r/Text*; '
+                'x code maps in 5 formats from real simulator traces or arbitrary address sets x options -h/-l/-C/-r/Text*; plus every '
+                'opcode slot (1792) once in straight-line images with -C; '
                 'distinct_nontrivial = distinct inputs')
     rmworkdir('c14')
     return rep.finish()
